@@ -594,7 +594,13 @@ func c07Sess(entry string, n []uint64, f []string) string {
 	case "bkrakick":
 		return c07BacklogRAKick(n)
 	case "fzsess": // fzsess <proto>,<phase> <payload>: the whole receive path of a session, crash check only
-		s, _ := c07Session(ppp.Phase(c07Num(n, 1)))
+		var s *SessionState
+		if c07Num(n, 1) == 9 { // an open session with IPv6CP Opened: 0x0057 frames reach handleIPv6Packet
+			c, _ := c07Component()
+			s = c07OpenV6Session(c, 0)
+		} else {
+			s, _ = c07Session(ppp.Phase(c07Num(n, 1)))
+		}
 		defer s.lcp.FSM().Kill()
 		defer s.ipcp.FSM().Kill()
 		defer s.ipv6cp.FSM().Kill()
